@@ -18,7 +18,9 @@
      EmptyInputWritesBlock  TRUE : finish() without any block still runs finish_current_block (D3) -> FALSE
      BlockLimitPerByte      FALSE: write() tests the block limit once per loop iteration and hands the
                                    whole rest of the buffer to the block (D17)      -> TRUE
-     MagicTestInverted      TRUE : try_start_next_stream rejects the byte 0xFD it looks for (D14) -> FALSE *)
+     MagicTestInverted      TRUE : try_start_next_stream rejects the byte 0xFD it looks for (D14) -> FALSE
+     ReaderChecksIndex      FALSE: the reader compares only the number of index records with the blocks it
+                                   decoded, not their sizes (group B's C04 finding)   -> TRUE *)
 EXTENDS Integers, Sequences, FiniteSets, TLC
 
 CONSTANTS
@@ -35,7 +37,7 @@ CONSTANTS
   Pads,            \* stream padding lengths picked from (bytes)
   Trailings,       \* kinds of trailing bytes after the last stream: subset of {"none","garbage"}
   Multis,          \* values of allow_multiple_streams explored: subset of BOOLEAN
-  IndexCountsHeader, EmptyInputWritesBlock, BlockLimitPerByte, MagicTestInverted
+  IndexCountsHeader, EmptyInputWritesBlock, BlockLimitPerByte, MagicTestInverted, ReaderChecksIndex
 
 VARIABLES
   cfg,      \* options of the stream being written: [check, limit, dict, hsize, cz]
@@ -127,7 +129,7 @@ DoFinish(c, s) ==
 
 Cfgs == [check : CheckIds, limit : LimitOpts, dict : {DictUnits}, hsize : HSizes, cz : [1..MaxBlocks -> CSizes]]
 
-RD0 == [st |-> "idle", pos |-> 1, blocks |-> 0, out |-> 0, bytes |-> 0, multi |-> FALSE, check |-> 0, nstreams |-> 0]
+RD0 == [st |-> "idle", pos |-> 1, blocks |-> 0, out |-> 0, bytes |-> 0, multi |-> FALSE, check |-> 0, nstreams |-> 0, brecs |-> <<>>]
 
 InitWith(c) ==
   /\ cfg = c /\ ws = W0 /\ calls = <<>> /\ file = <<>> /\ streams = <<>> /\ pads = <<>>
@@ -181,7 +183,7 @@ SHOk(r) == r.crc_ok /\ r.flags_ok /\ r.check \in {0, 1, 4, 10}       \* CheckTyp
 RHeader ==
   /\ phase = "read" /\ rd.st = "hdr"
   /\ rd' = IF Kind(rd.pos) = "SH" /\ SHOk(file[rd.pos])
-             THEN [rd EXCEPT !.st = "blocks", !.pos = @ + 1, !.bytes = @ + 12, !.check = file[rd.pos].check, !.blocks = 0]
+             THEN [rd EXCEPT !.st = "blocks", !.pos = @ + 1, !.bytes = @ + 12, !.check = file[rd.pos].check, !.blocks = 0, !.brecs = <<>>]
              ELSE Fail
   /\ UNCHANGED <<cfg, ws, calls, file, streams, pads, trail, phase>>
 
@@ -196,15 +198,18 @@ RBlock ==
   /\ phase = "read" /\ rd.st = "blocks" /\ Kind(rd.pos) \notin {"Index"}
   /\ rd' = IF BlockOk(rd.pos)
              THEN [rd EXCEPT !.pos = @ + 4, !.blocks = @ + 1, !.out = @ + file[rd.pos + 1].usize,
-                             !.bytes = @ + file[rd.pos].hsize + file[rd.pos + 1].csize + file[rd.pos + 2].n + file[rd.pos + 3].n]
+                             !.bytes = @ + file[rd.pos].hsize + file[rd.pos + 1].csize + file[rd.pos + 2].n + file[rd.pos + 3].n,
+                             !.brecs = Append(@, <<file[rd.pos].hsize + file[rd.pos + 1].csize + file[rd.pos + 3].n, file[rd.pos + 1].usize>>)]
              ELSE Fail
   /\ UNCHANGED <<cfg, ws, calls, file, streams, pads, trail, phase>>
 
-\* prepare_next_block -> None: parse_index_and_footer. The reader compares only the record *count* with the
-\* blocks it decoded (not the sizes), checks padding and CRCs, and the footer's CRC / flags / magic.
+\* prepare_next_block -> None: parse_index_and_footer. The reader compares the record count (and, with
+\* ReaderChecksIndex, the unpadded / uncompressed sizes) with the blocks it decoded, checks padding and CRCs,
+\* and the footer's CRC / flags / magic.
 IndexOk(p) ==
   /\ file[p].n = rd.blocks /\ file[p].crc_ok /\ file[p].pad_zero
   /\ \A i \in 1..Len(file[p].recs) : file[p].recs[i][1] # 0
+  /\ (ReaderChecksIndex => file[p].recs = rd.brecs)
   /\ Kind(p + 1) = "Footer" /\ file[p + 1].crc_ok /\ file[p + 1].flags_eq /\ file[p + 1].magic_ok
 
 RIndex ==
@@ -224,7 +229,7 @@ RScan ==
          q  == IF Kind(p) = "StreamPad" THEN p + 1 ELSE p
      IN rd' = IF Kind(q) = "EOF" THEN [rd EXCEPT !.st = "eof", !.pos = q, !.bytes = @ + k]
               ELSE IF Kind(q) = "SH" /\ ~MagicTestInverted /\ k % 4 = 0 /\ SHOk(file[q])
-                THEN [rd EXCEPT !.st = "blocks", !.pos = q + 1, !.bytes = @ + k + 12, !.check = file[q].check, !.blocks = 0]
+                THEN [rd EXCEPT !.st = "blocks", !.pos = q + 1, !.bytes = @ + k + 12, !.check = file[q].check, !.blocks = 0, !.brecs = <<>>]
                 ELSE Fail
   /\ UNCHANGED <<cfg, ws, calls, file, streams, pads, trail, phase>>
 
